@@ -9,7 +9,7 @@ CONSTANTS
   Calls = {"none", "ok", "revert", "hookfail", "nestfail"}
   Alts = {"none", "reenc", "amt", "seq", "sender", "src", "dst"}
   AckAlts = {"none", "ackcode", "ackrelayer"}
-  Proofs = {"ok", "otherkey", "otherheight", "truncated", "empty"}
+  Proofs = {"ok", "otherkey", "otherheight", "truncated", "empty", "rev0"}
   Signers = {"relayer", "outsider"}
   Funds = 1000
   Fees = {0, 1}
